@@ -62,13 +62,14 @@ def _all_cells():
                         if flavor == "coro":
                             uses += ["after_await", "await_in_arm"]
                         for use in uses:
-                            cells.append([flavor, sk, mask, predef, nest, use])
+                            for defkind in ("arith", "rtindex"):
+                                cells.append([flavor, sk, mask, predef, nest, use, defkind])
     return cells
 
 
 def plan(tier):
     cells = _all_cells()
-    stride = 2 if tier == "quick" else 1
+    stride = 3 if tier == "quick" else 1
     n = 16
     shards = [{"kind": "enum", "name": f"flow{i}", "lo": i, "n": n, "stride": stride} for i in range(n)]
     per = 25 if tier == "quick" else 300
@@ -98,13 +99,24 @@ def strategy(shard):
 # ----------------------------------------------------------------------------- flow cells -> spec
 def build_cell(cell):
     """-> (spec, must_reject: bool, crosses_blocks: bool)"""
-    flavor, sk, mask, predef, nest, use = cell
-    W = 3
+    flavor, sk, mask, predef, nest, use = cell[:6]
+    defkind = cell[6] if len(cell) > 6 else "arith"
+    W = 4
     inputs = [{"name": "ib0", "kind": "bit"}, {"name": "ib1", "kind": "bit"}, {"name": "ib2", "kind": "bit"},
-              {"name": "iv0", "kind": "u"}, {"name": "iv1", "kind": "u"}]
-    outputs = [{"name": "ov0", "kind": "u", "default": 1}, {"name": "ov1", "kind": "u", "default": 2}]
+              {"name": "iv0", "kind": "u"}, {"name": "iv1", "kind": "u"}, {"name": "ix", "kind": "u", "w": 2}]
+    outputs = [{"name": "ov0", "kind": "u", "default": 1}, {"name": "ov1", "kind": "u", "default": 2},
+               {"name": "ob0", "kind": "bit", "default": 0}]
     n = N_ARMS[sk]
-    exprs = [["add", ["in", "iv0"], ["const", k + 1]] for k in range(3)] + [["xor", ["in", "iv0"], ["in", "iv1"]]]
+    if defkind == "arith":
+        exprs = [["add", ["in", "iv0"], ["const", k + 1]] for k in range(3)] + [["xor", ["in", "iv0"], ["in", "iv1"]]]
+        pre_expr = ["inv", ["in", "iv1"]]
+        use_stmt = {"k": "assign", "t": {"name": "ov0"}, "e": ["loc", "t"]}
+    else:
+        # the intermediate is a bit selected by a run-time index (the index is snapshotted into a temporary)
+        exprs = [["ridx", ["in", "iv0"], ["in", "ix"]], ["ridx", ["in", "iv1"], ["in", "ix"]],
+                 ["ridx", ["xor", ["in", "iv0"], ["in", "iv1"]], ["in", "ix"]], ["ridx", ["inv", ["in", "iv0"]], ["in", "ix"]]]
+        pre_expr = ["ridx", ["inv", ["in", "iv1"]], ["in", "ix"]]
+        use_stmt = {"k": "assign", "t": {"name": "ob0"}, "e": ["loc", "t", 1]}
 
     def arm(k):
         body = [{"k": "assign", "t": {"name": "ov1"}, "e": ["add", ["in", "iv1"], ["const", k]]}]
@@ -138,7 +150,7 @@ def build_cell(cell):
     if flavor == "coro":
         body.append({"k": "assign", "t": {"name": "ov1"}, "e": ["in", "iv1"]})
     if predef:
-        body.append({"k": "bind", "bind": "t", "e": ["inv", ["in", "iv1"]]})
+        body.append({"k": "bind", "bind": "t", "e": pre_expr})
     body += inner
     crosses_await = False
     if use == "after_await":
@@ -148,7 +160,7 @@ def build_cell(cell):
         # the await sits inside arm 0 after its binding: a use after the construct then consumes, on that path,
         # an intermediate computed before the await
         crosses_await = bool(mask & 1) or bool(predef)
-    body.append({"k": "assign", "t": {"name": "ov0"}, "e": ["loc", "t"]})
+    body.append(use_stmt)
     must_reject = (not predef and not all_paths_define) or crosses_await
     if not mask and not predef:
         must_reject = True  # t is never bound at all
@@ -157,7 +169,7 @@ def build_cell(cell):
     return spec, must_reject, bool(mask)
 
 
-STIM = [{"ib0": a, "ib1": b, "ib2": c, "iv0": v, "iv1": w}
+STIM = [{"ib0": a, "ib1": b, "ib2": c, "iv0": v, "iv1": w, "ix": (v + w) % 4}
         for (a, b, c, v, w) in [(0, 0, 0, 1, 2), (1, 0, 1, 3, 1), (0, 1, 1, 5, 2), (1, 1, 0, 7, 3), (0, 0, 1, 2, 1), (1, 0, 0, 4, 2),
                                 (0, 1, 0, 6, 0), (1, 1, 1, 0, 1), (0, 0, 1, 3, 2), (1, 0, 1, 5, 5)]]
 
@@ -227,12 +239,13 @@ def check(case):
     out = Outcome()
     if "cell" in case:
         cell = case["cell"]
-        flavor, sk, mask, predef, nest, use = cell
+        flavor, sk, mask, predef, nest, use = cell[:6]
         spec, must_reject, crosses = build_cell(cell)
         stim = STIM
         out.identity = "cell:" + ",".join(map(str, cell))
         out.exhaustive_cell = None
         sig_base = {"flavor": flavor, "skeleton": sk, "nest": nest, "use": use, "predef": bool(predef),
+                    "defkind": cell[6] if len(cell) > 6 else "arith",
                     "defs": "none" if not mask else "all" if mask == (1 << N_ARMS[sk]) - 1 else "some"}
         out.labels += ["cell", "flavor:" + flavor, "must_reject" if must_reject else "legal"]
     else:
